@@ -1032,11 +1032,57 @@ class NP:
         for n in idx:
             dst.d[n] = dst._coerce(src_a.d[n] if src_a is not None else src)
 
-    def sort(self, a):
-        raise Unsupported("np.sort on symbolic values")
+    def argsort(self, a, kind=None):
+        """Stable insertion sort on indices; every comparison the path condition does not settle splits the path."""
+        a = asarray(a)
+        if a.ndim != 1:
+            raise Unsupported("argsort of a 2-D symbolic array")
+        idx = []
+        for j in range(len(a.d)):
+            pos = len(idx)
+            while pos > 0 and bool(_cmp(a.d[j], a.d[idx[pos - 1]], "lt")):
+                pos -= 1
+            idx.insert(pos, j)
+        return SymArray([QI(j) for j in idx], "i8")
 
-    def argsort(self, a):
-        raise Unsupported("np.argsort on symbolic values")
+    def sort(self, a, kind=None):
+        a = asarray(a)
+        return SymArray([a.d[int(j)] for j in self.argsort(a).d], a.dtype_tag)
+
+    def searchsorted(self, a, v, side="left", sorter=None):
+        """Binary search of the array *as given* (numpy does not check that it is sorted); decisions split the path."""
+        if sorter is not None:
+            raise Unsupported("np.searchsorted(sorter=)")
+        a = asarray(a)
+        op = "lt" if side == "left" else "le"
+
+        def one(q):
+            lo, hi = 0, len(a.d)
+            while lo < hi:
+                mid = (lo + hi) // 2
+                if bool(_cmp(a.d[mid], q, op)):
+                    lo = mid + 1
+                else:
+                    hi = mid
+            return QI(lo)
+        if _is_scalar(v):
+            return one(v)
+        return asarray(v)._map(one, "i8")
+
+    def mean(self, a, axis=None):
+        a = asarray(a)
+        if axis is not None or a.ndim != 1:
+            raise Unsupported("np.mean with an axis / of a 2-D array")
+        if not a.d:
+            raise Unsupported("np.mean of an empty array (nan)")
+        return _sum(a.d) / Q(len(a.d))
+
+    def __getattr__(self, name):
+        # a numpy function the model does not have: an honest 'cannot analyse' (exit 3), never an AttributeError that
+        # would look like an error of the code under analysis
+        if name.startswith("__"):
+            raise AttributeError(name)
+        raise Unsupported(f"np.{name} is not modelled")
 
     def isin(self, *a, **k):
         raise Unsupported("np.isin")
